@@ -310,6 +310,10 @@ run = Contract(
     returns=TObj, modifies=("all_results", "used_parameters"), pure=False,
     requires=lambda S, a: {
         "no cache and no task graph (the cached path is C09's, bounded)": _no_cache(S, a),
+        "a function with several output names has an output picker (PipeFunc.__init__ installs the default one)":
+            S.forall_key(TOut, lambda k: S.implies(S.and_(S.has(a.self.output_to_func, k), lambda: S.is_tag(
+                a.self.output_to_func[k].output_name, "tuple")), lambda: S.not_(S.is_none(a.self.output_to_func[k].output_picker))),
+                domain=() if S.symbolic else list(a.self.output_to_func)),
         "a function is registered under each of its output names": S.forall_key(TOut, lambda k: S.implies(
             S.has(a.self.output_to_func, k), lambda: S.or_(
                 S.eq(a.self.output_to_func[k].output_name, k),
@@ -450,6 +454,9 @@ get_result_from_cache = Contract(
     params={"func": PipeFuncV, "cache": CacheV, "cache_key": OptKey, "output_name": TOut, "all_results": DRes,
             "full_output": TBool, "used_parameters": UsedT, "lazy": TBool},
     defaults={"lazy": False}, returns=TTuple([TBool, TBool]), modifies=("all_results", "used_parameters"), pure=False,
+    requires=lambda S, a: {
+        "a function with several output names has an output picker (PipeFunc.__init__ installs the default one)":
+            S.implies(S.is_tag(a.func.output_name, "tuple"), lambda: S.not_(S.is_none(a.func.output_picker)))},
     ensures=_grc_ensures,
 )
 ALL += [cache_contains, cache_get, get_result_from_cache]
